@@ -6,6 +6,7 @@ import GenlmModel.Model.Mask
 import GenlmModel.Model.WfsaOps
 import GenlmModel.Model.Cert
 import GenlmModel.Model.Linear
+import GenlmModel.Generated.Semiring
 /-! Operation dispatch of the driver: one JSON object in, one JSON object out. -/
 namespace Genlm
 open Lean (Json)
@@ -306,8 +307,76 @@ def opLiftExpF (j : Json) : E Json := do
 
 instance : BEq (Expc Float) := ⟨fun a b => a.p == b.p && a.r == b.r⟩
 
+/-! ### the GENERATED semiring operations, executed (validation of the translator against the classes) -/
+section GenSemi
+open Gen
+
+def tagOfJson (j : Json) : E Tag := do
+  match ← getStr j with
+  | "zero" => pure Tag.zero | "one" => pure Tag.one | _ => pure Tag.fresh
+
+def ratBotOfJson (j : Json) : E RatBot :=
+  match j with
+  | .str "-inf" => pure ⟨none⟩
+  | _ => do pure ⟨some (← ratOfJson j)⟩
+def ratBotToJson (x : RatBot) : Json := match x.v with | none => .str "-inf" | some q => .str (ratToString q)
+
+def floatOfJson (j : Json) : E Float :=
+  match j with
+  | .str "-inf" => pure (-(1.0 / 0.0))
+  | .str "inf" => pure (1.0 / 0.0)
+  | _ => do let q ← ratOfJson j; pure (Float.ofInt q.num / Float.ofNat q.den)
+def floatToJson (f : Float) : Json := Json.mkObj [("bits", .num ⟨f.toBits.toNat, 0⟩)]
+
+/-- {"op":"semiring","type":T,"f":"add"|"mul"|"star"|"zero"|"one","a":…,"b":…} -/
+def opSemiring (j : Json) : E Json := do
+  let ty ← getStr (← getField j "type")
+  let f ← getStr (← getField j "f")
+  let ja := (j.getObjVal? "a").toOption.getD Json.null
+  let jb := (j.getObjVal? "b").toOption.getD Json.null
+  let pairOf (x : Json) : E (Rat × Rat) := do
+    match ← getArr (← getField x "score") with
+    | [p, r] => pure ((← ratOfJson p), (← ratOfJson r))
+    | _ => throw "bad pair"
+  let pairTo (p : Rat × Rat) : Json := .arr #[.str (ratToString p.1), .str (ratToString p.2)]
+  match ty with
+  | "Boolean" => do
+      let g (x : Json) : E Bool := match x with | .bool b => pure b | _ => pure false
+      let a ← g ja; let b ← g jb
+      pure (.bool (match f with | "add" => Genlm.Gen.Boolean.add a b | "mul" => Genlm.Gen.Boolean.mul a b | "star" => Genlm.Gen.Boolean.star a | "zero" => Genlm.Gen.Boolean.zeroV | _ => Genlm.Gen.Boolean.oneV))
+  | "Real" | "Float" | "MaxTimes" => do
+      let a ← (if ja == Json.null then pure 0 else ratOfJson ja); let b ← (if jb == Json.null then pure 0 else ratOfJson jb)
+      let r : Rat := match ty, f with
+        | "Real", "add" => Genlm.Gen.Real.add a b | "Real", "mul" => Genlm.Gen.Real.mul a b | "Real", "star" => Genlm.Gen.Real.star a | "Real", "zero" => Genlm.Gen.Real.zeroV | "Real", _ => Genlm.Gen.Real.oneV
+        | "Float", "add" => Genlm.Gen.Float.add a b | "Float", "mul" => Genlm.Gen.Float.mul a b | "Float", "star" => Genlm.Gen.Float.star a | "Float", "zero" => Genlm.Gen.Float.zeroV | "Float", _ => Genlm.Gen.Float.oneV
+        | _, "add" => Genlm.Gen.MaxTimes.add a b | _, "mul" => Genlm.Gen.MaxTimes.mul a b | _, "star" => Genlm.Gen.MaxTimes.star a | _, "zero" => Genlm.Gen.MaxTimes.zeroV | _, _ => Genlm.Gen.MaxTimes.oneV
+      pure (.str (ratToString r))
+  | "MaxPlus" => do
+      let a ← (if ja == Json.null then pure (0 : RatBot) else ratBotOfJson ja); let b ← (if jb == Json.null then pure (0 : RatBot) else ratBotOfJson jb)
+      let ninf : RatBot := ⟨none⟩
+      pure (ratBotToJson (match f with | "add" => Genlm.Gen.MaxPlus.add a b | "mul" => Genlm.Gen.MaxPlus.mul a b | "star" => Genlm.Gen.MaxPlus.star a | "zero" => Genlm.Gen.MaxPlus.zeroV ninf | _ => Genlm.Gen.MaxPlus.oneV))
+  | "Expectation" => do
+      let a ← (if ja == Json.null then pure (0, 0) else pairOf ja); let b ← (if jb == Json.null then pure (0, 0) else pairOf jb)
+      pure (pairTo (match f with | "add" => Genlm.Gen.Expectation.add a b | "mul" => Genlm.Gen.Expectation.mul a b | "star" => Genlm.Gen.Expectation.star a | "zero" => Genlm.Gen.Expectation.zeroV | _ => Genlm.Gen.Expectation.oneV))
+  | "Entropy" => do
+      let tv (x : Json) : E (Tag × Rat × Rat) := do
+        if x == Json.null then pure (Tag.fresh, 0, 0) else
+        pure ((← tagOfJson (← getField x "tag")), (← pairOf x))
+      let a ← tv ja; let b ← tv jb
+      let r : Tag × Rat × Rat := match f with | "add" => Genlm.Gen.Entropy.add a b | "mul" => Genlm.Gen.Entropy.mul a b | "star" => Genlm.Gen.Entropy.star a | "zero" => Genlm.Gen.Entropy.zeroV | _ => Genlm.Gen.Entropy.oneV
+      pure (Json.mkObj [("tag", .str (match r.1 with | .zero => "zero" | .one => "one" | .fresh => "fresh")), ("score", pairTo r.2)])
+  | "Log" => do
+      let a ← (if ja == Json.null then pure (0.0 : Float) else floatOfJson ja); let b ← (if jb == Json.null then pure (0.0 : Float) else floatOfJson jb)
+      let ninf : Float := -(1.0 / 0.0)
+      pure (floatToJson (match f with
+        | "add" => Genlm.Gen.Log.add ninf Float.log Float.exp a b | "mul" => Genlm.Gen.Log.mul ninf a b
+        | "star" => Genlm.Gen.Log.star Float.exp (fun x => Float.log (1.0 + x)) a | "zero" => Genlm.Gen.Log.zeroV ninf | _ => Genlm.Gen.Log.oneV))
+  | _ => throw s!"unknown semiring type {ty}"
+end GenSemi
+
 def runOp (j : Json) : E Json := do
   let op ← getStr (← getField j "op")
+  if op == "semiring" then return (← opSemiring j)
   let R ← match j.getObjVal? "R" with | .ok (.str r) => pure r | _ => pure "Float"
   match R with
   | "Float" | "Real" => (match op with
